@@ -43,6 +43,10 @@ pub fn shards(tier: &str) -> Vec<String> {
                 }
                 v.push(format!("{k}:{o}:subst:{tc}"));
                 v.push(format!("{k}:{o}:substhist:{tc}"));
+                if tc == "t1" {
+                    // persistent variable sets / substitution objects while operands come and go (sparse live set)
+                    v.push(format!("{k}:{o}:sparsegc:{tc}"));
+                }
             }
         }
     }
@@ -301,6 +305,62 @@ fn run_k<K: QuantKind>(ctx: &mut Ctx, order: &[u32], part: &str, tc: ThreadCfg) 
                 });
             }
         }
+        "sparsegc" => ctx.group("persistent variable sets and substitutions, operands come and go", |ctx| {
+            // only the variable sets, the replacement functions and the last few results are alive; every operand
+            // is built, used and dropped, a collection follows, and the next operand is built in the freed slots
+            let x: Vec<Tab> = (0..n).map(|v| model::var_tab(v, n)).collect();
+            let keep_tabs: Vec<Tab> = (1..8u32).map(|vars| model::cube_tab(vars, 0, n)).chain([!x[0] & 0xff, !x[2] & 0xff, x[0] ^ x[1]]).collect();
+            let (mref, keep) = super::boolops::functions_of::<K>(n, &order, 1 << 16, tc, &keep_tabs);
+            let cube = |vars: u32| &keep[vars as usize - 1];
+            let vecs: Vec<[Option<Tab>; 3]> = vec![
+                [None, None, Some(!x[2] & 0xff)],
+                [Some(!x[0] & 0xff), None, None],
+                [Some(x[1]), None, Some(x[0])],
+                [None, Some(x[0] ^ x[1]), None],
+                [Some(x[2]), Some(x[0]), Some(x[1])],
+            ];
+            let substs: Vec<Subst<K::F>> = vecs
+                .iter()
+                .map(|repl| {
+                    let (mut vars, mut reps) = (vec![], vec![]);
+                    for (v, r) in repl.iter().enumerate() {
+                        if let Some(rt) = r {
+                            vars.push(v as u32);
+                            reps.push(K::build(&mref, *rt).unwrap());
+                        }
+                    }
+                    Subst::new(vars, reps)
+                })
+                .collect();
+            let mut recent: std::collections::VecDeque<K::F> = Default::default();
+            for (round, mult) in [1u64, 37, 101, 171].into_iter().enumerate() {
+                for i in 0..256u64 {
+                    let t = (i * mult + round as u64 * 17) % 256;
+                    let f = K::build(&mref, t).unwrap();
+                    for vars in 1..8u32 {
+                        for which in 0..3u8 {
+                            let r = K::q(which, &f, cube(vars));
+                            if let Ok(h) = &r {
+                                recent.push_back(h.clone());
+                            }
+                            check::<K>(ctx, n, &order, QN[which as usize], &[t], json!({"vars": vars, "round": round, "sparse": true}), mq(which, t, vars, n), r, nc(t, n));
+                        }
+                    }
+                    for (si, s) in substs.iter().enumerate() {
+                        let r = K::subst(&f, s);
+                        if let Ok(h) = &r {
+                            recent.push_back(h.clone());
+                        }
+                        check::<K>(ctx, n, &order, "substitute", &[t], json!({"repl": vecs[si], "round": round, "sparse": true}), model::substitute(t, &vecs[si], n), r, nc(t, n));
+                    }
+                    while recent.len() > 12 {
+                        recent.pop_front();
+                    }
+                    drop(f);
+                    mref.with_manager_shared(|m| m.gc());
+                }
+            }
+        }),
         "substhist" => ctx.group("substhist", |ctx| {
             // f-major: persistent Subst objects used alternately on the same function, gc between
             let rs = repl_set();
